@@ -16,6 +16,8 @@ import Proofs.TreeChildren
 import Proofs.TreeLookup
 import Proofs.TreeAudit
 import Proofs.TreeNames
+import Proofs.TreeOrder
+import Proofs.TreeFlatHeap
 import Proofs.LibSrc
 namespace Pydap.C12
 open Pydap.Quote Pydap.Tree
@@ -452,6 +454,123 @@ example : some demo2Root ∈ (runH State.init (demo2.map .op)).handles ∧ demo2
   have c2 : childOf demo2Seq demo2Leaf := ⟨[[97], [37], [50], [48], [98]], by decide, by decide⟩
   refine ⟨List.mem_of_getElem? hr, rfl, ?_, Below.child (Below.child Below.self c1) c2⟩
   exact Chain.step (ns := [[[115], [113]]]) (Chain.child c1) (by decide) c2
+
+/-! ## round 7: "in insertion order" over histories -/
+
+/-- **the order of `children()` is determined by the history, as "insertion order" with replacement moving to the end.**
+    Let any history `pre` reach a store in which handle `j` holds the container `o`, and let any further history `later`
+    run (any operations on any handles, failing ones included).  If `j` is still live, the container it holds lists its
+    children (`_visible_keys`, and — inside the scope — `children()` itself) in exactly the order `ghostRun` computes from
+    `later` alone, starting from `o`'s listing: a **successful** `handle_j[key] = item` un-lists `quote key` and lists it
+    last (insertion appends, replacement moves to the end); a successful `del handle_j[key]` un-lists `key`; every other
+    operation — edits deeper in the tree, edits through other handles, copies, selections, data and attribute assignments,
+    anything that raises — leaves the order alone.  The starting listing of a handle is `[]` for `new`
+    (`C12_new_lists_nothing`), the `_dict` order for `copy` (`C12_copy_preserves`: hidden children re-appear, a reordering
+    selection is forgotten) and the deduplicated quoted tuple for a Structure/Dataset selection (`C12_select_separate`):
+    these two are the operations that *reset* the order.  Scope: the root container of a handle; a nested container is
+    covered while it is filled as a root, and stepwise (`C12_setitem_appends`, `C12_delitem_preserves`,
+    `C12_edit_below_keeps_listing`) afterwards. -/
+theorem C12_order_histories (pre later : List Op) (hok : ∀ op ∈ pre, op.scope = true)
+    (hok' : ∀ op ∈ later, op.scope = true) (j : Nat) (o o' : Obj)
+    (h : (run State.init pre).handles[j]? = some (some o))
+    (h' : (run (run State.init pre) later).handles[j]? = some (some o')) :
+    o'.hdr.visible = ghostRun (run State.init pre) later j o.hdr.visible
+    ∧ ∃ cs, children o' = .ok cs
+        ∧ cs.map (fun c => c.hdr.name) = ghostRun (run State.init pre) later j o.hdr.visible := by
+  have hv := run_visible later _ j o o' h h'
+  have hgood := run_good later _ (run_good pre State.init good_init
+    (fun op ho => (Op.ok_iff_scope op).2 (hok op ho))) (fun op ho => (Op.ok_iff_scope op).2 (hok' op ho))
+  obtain ⟨cs, a, b, _⟩ := children_once o' (hgood.1 o' (List.mem_of_getElem? h')).1
+  exact ⟨hv, cs, a, by rw [b, hv]⟩
+
+/-- a freshly constructed variable lists nothing -/
+theorem C12_new_lists_nothing (s s' : State) (k : Kind) (name : Str) (a : Nat) (h : stepE s (.new k name a) = .ok s') :
+    ∃ o, s'.handles = s.handles ++ [some o] ∧ o.hdr.visible = [] := by
+  simp only [stepE] at h; cases h
+  exact ⟨_, rfl, rfl⟩
+
+/-- non-vacuity, and the order is *not* the order of first insertion: insert `x`, insert `y`, a failing insertion (key ≠
+    name), replace `x`, insert `z`, delete `y` — the ghost and the container both list `x`, `z` -/
+def demoOrder : List Op :=
+  [.new .base [[120]] 1, .set 0 [] [[120]] 1, .new .base [[121]] 2, .set 0 [] [[121]] 2,
+   .new .base [[119]] 5, .set 0 [] [[120]] 3,
+   .new .base [[120]] 3, .set 0 [] [[120]] 4, .new .base [[122]] 4, .set 0 [] [[122]] 5, .del 0 [] [[121]]]
+
+example : ghostRun (run State.init [.new .struct [[115]] 0]) (demoOrder.take 8) 0 [] = [[[121]], [[120]]]
+    ∧ ghostRun (run State.init [.new .struct [[115]] 0]) demoOrder 0 [] = [[[120]], [[122]]]
+    ∧ ((run (run State.init [.new .struct [[115]] 0]) demoOrder).handles[0]?.map (Option.map (·.hdr.visible)))
+        = some (some [[[120]], [[122]]]) := by decide
+
+/-! ## round 7: histories the model describes step by step (`outside` is not silently a failed operation)
+
+`step` totalises: a model step answering `outside` (behaviour of the code the model does not describe) leaves the store
+unchanged like a raised exception.  The history theorems above therefore speak about pydap **for histories satisfying
+`noOutside`** — an executable predicate (the driver's `outside` count is its negation: 0 of 1500 generated histories per
+quick run). -/
+
+/-- **every step of a `noOutside` history is a described one**: it succeeds with exactly the store `run` reaches, or it
+    raises a modelled Python exception (`KeyError`/`TypeError`/`IndexError`) and leaves the store as it was -/
+theorem C12_described_histories (a : List Op) (op : Op) (b : List Op) (h : noOutside State.init (a ++ op :: b) = true) :
+    (∃ s', stepE (run State.init a) op = .ok s' ∧ run State.init (a ++ [op]) = s') ∨
+    (∃ e, e ≠ .outside ∧ stepE (run State.init a) op = .error e ∧ run State.init (a ++ [op]) = run State.init a) :=
+  noOutside_steps a State.init op b h
+
+/-- **sufficient conditions, by operation class** (the cheap ones): on a live handle `h` holding `o`, with a path that does
+    not lead through a Base variable (`navOk`; a missing key is a `KeyError`, which is described),
+    `del h[path][key]` and `h[path].attributes[k] = v` are always described; `h[path][key] = handles[src]` is described
+    when `src ≠ h` is live, holds a non-dataset root satisfying the invariant (every root of a history in scope does) and
+    the target is not a dataset.  Not characterised (they can be `outside`; listed in design_notes): a dead or missing
+    handle, `src = h`, a path through a Base variable, insertion into a dataset with a `.` in the key while it lists a
+    Structure/Sequence, a dataset inserted into a Structure, `copy` (re-inserts children through the same `__setitem__`s),
+    tuple selection (Base source, Grid with non-Base children, `grid[()]`, dotted names), `.data =` on a Sequence whose
+    `_set_data` raises half-way. -/
+theorem C12_described_ops (s : State) (h : Nat) (path : List Str) (o : Obj) (hg : s.get h = .ok o)
+    (hn : navOk path o = true) :
+    (∀ key, (Op.del h path key).described s = true) ∧ (∀ k v, (Op.setAttr h path k v).described s = true)
+    ∧ (∀ key src item, h ≠ src → s.get src = .ok item → invObj item = true → item.hdr.kind ≠ .dataset →
+        (∀ c, navigate path o = .ok c → c.hdr.kind ≠ .dataset) → (Op.set h path key src).described s = true) :=
+  ⟨(del_setAttr_described s h path o hg hn).1, (del_setAttr_described s h path o hg hn).2,
+    fun key src item hne hg2 hi hk ht => set_described s h src path key o item hne hg hg2 hn ((invO_iff item).2 hi) hk ht⟩
+
+/-- non-vacuity: the demo histories contain no `outside` step; a history that inserts a handle into itself does -/
+example : noOutside State.init demo2 = true ∧ noOutside State.init demoSel = true
+    ∧ noOutside State.init [.new .struct [[115]] 0, .set 0 [] [[115]] 0] = false := by decide
+
+/-! ## round 7: one mutation on a flat heap of mutable records (the step the tree store leaves out)
+
+The store of the history theorems holds one tree per handle; that this is how a heap of mutable Python objects behaves
+is the standard separation argument.  Here it is made explicit for **one** in-place mutation: `FlatHeap` maps addresses
+to records (fields + the addresses in `_dict`), `reify` is the tree a handle sees (`oid` = address), `mutate` overwrites
+one record in place.  Not done: the refinement of the *recursive* operations (`_set_id`, `__copy__`, `__setitem__`
+moving a subtree) and of whole histories — those remain carried by the `id()`-class correspondence and the oracle's
+snapshots. -/
+
+/-- **`handle1.attributes[k] = v` on the flat heap**: if the trees seen from `r1` and `r2` share no address (the
+    `oids.Nodup` invariant of `C12_invariant_all_histories`), the in-place update of the record at `r1` gives, seen from
+    `r1`, exactly the model's `setAttr`, and the tree seen from `r2` (children, ids, attributes, data) is unchanged; and
+    *any* in-place change of *any* single record reachable from `r1` (`del self._dict[k]`, `_visible_keys.append`, …) is
+    invisible from `r2` -/
+theorem C12_flat_heap_mutation (hp : FlatHeap) (fuel r1 r2 : Nat) (t1 t2 : Obj) (k : Str) (v : AVal)
+    (h1 : reify hp fuel r1 = some t1) (h2 : reify hp fuel r2 = some t2) (hnd : (t1.oids ++ t2.oids).Nodup) :
+    reify (mutate hp r1 (recSetAttr k v)) fuel r1 = some (setAttr t1 k v)
+    ∧ reify (mutate hp r1 (recSetAttr k v)) fuel r2 = some t2
+    ∧ ∀ addr ∈ t1.oids, ∀ f, reify (mutate hp addr f) fuel r2 = some t2 :=
+  heap_setAttr_refines hp fuel r1 r2 t1 t2 k v h1 h2 hnd
+
+/-- a heap with the Structure `s` (address 0) holding `x` (address 1), and a separate `y` (address 2); and — to show that
+    the hypothesis is needed — the same `x` also reachable from a second Structure at address 3 (sharing) -/
+def exHeap : FlatHeap := fun a =>
+  if a = 0 then some ⟨⟨0, .struct, [[115]], [[115]], [[[120]]], [], .none⟩, [1]⟩
+  else if a = 1 then some ⟨⟨1, .base, [[120]], [[115], [46], [120]], [], [], .atom 1⟩, []⟩
+  else if a = 2 then some ⟨⟨2, .base, [[121]], [[121]], [], [], .atom 2⟩, []⟩
+  else if a = 3 then some ⟨⟨3, .struct, [[116]], [[116]], [[[120]]], [], .none⟩, [1]⟩
+  else none
+
+example : (reify exHeap 3 0).map (·.oids) = some [0, 1] ∧ (reify exHeap 3 2).map (·.oids) = some [2]
+    ∧ reify (mutate exHeap 1 (recSetAttr [[117]] (.nat 7))) 3 2 = reify exHeap 3 2
+    ∧ reify (mutate exHeap 1 (recSetAttr [[117]] (.nat 7))) 3 0 ≠ reify exHeap 3 0
+    -- with sharing (address 1 is in both trees) the edit through `s` is seen through `t`
+    ∧ reify (mutate exHeap 1 (recSetAttr [[117]] (.nat 7))) 3 3 ≠ reify exHeap 3 3 := by decide
 
 /-! ## lookups: `obj[key]` with any string — observations that leave the store alone
 
